@@ -32,6 +32,7 @@ class Run:
         self.extra = {}
         self.assumptions = []
         self.determinism_reruns = 0
+        self.nontrivial_extra = 0   # non-trivial cases counted by a check in bulk (measured, distinct by construction)
 
     # ---- bookkeeping
     def count(self, k, n=1):
@@ -87,7 +88,7 @@ class Run:
             new.append(key)
         cov = {
             "evaluations": self.evaluations,
-            "distinct_nontrivial": len(self.nontrivial),
+            "distinct_nontrivial": len(self.nontrivial) + self.nontrivial_extra,
             "rule": self.rule,
             "samples": self.samples[:8],
             "exhaustive": bool(self.exhaustive and not self.caps),
@@ -105,7 +106,7 @@ class Run:
               "violations": len(new)}
         valid = validate_and_write(self.pid, ev)
         print("%s tier=%s evaluations=%d nontrivial=%d outcomes=%d violations=%d known=%d wall=%.1fs" % (
-            self.pid, self.tier, self.evaluations, len(self.nontrivial), len(self.outcomes), len(new),
+            self.pid, self.tier, self.evaluations, len(self.nontrivial) + self.nontrivial_extra, len(self.outcomes), len(new),
             len(cov["known_finding_keys"]), ev["wall_s"]))
         return 1 if new else (0 if valid else 2)
 
